@@ -293,7 +293,8 @@ func leanStrList(name string, xs []string) string {
 }
 
 // mutexFacts lists, for every function of the package that mentions <obj>, the lock/unlock/access
-// events on <obj>.<mu> / <obj>.<field> in source order (a deferred Unlock is placed at the end).
+// events on <obj>.<mu> / <obj>.<field> in source order (a deferred Unlock is placed at the end),
+// and "dispatch" for a call x.DialURL(..)/x.DialURLContext(..) in such a function.
 func mutexFacts(p *pkg, obj, mu, field string) string {
 	type fn struct {
 		name   string
@@ -334,6 +335,9 @@ func mutexFacts(p *pkg, obj, mu, field string) string {
 							}
 							return false
 						}
+					}
+					if sel, ok := x.Fun.(*ast.SelectorExpr); ok && (sel.Sel.Name == "DialURL" || sel.Sel.Name == "DialURLContext") && mentions(fd.Body, obj) {
+						ev = append(ev, "dispatch") // the call into a registered dialer
 					}
 				case *ast.SelectorExpr:
 					if exprStr(x) == obj+"."+field {
